@@ -182,6 +182,9 @@ class Prog:
     def set_sul(self, fid, field, v):
         self.steps.append({'op': 'set_sul', 'fid': fid, 'field': field, 'v': v})
 
+    def set_header(self, lf, field, v):
+        self.steps.append({'op': 'set_header', 'lf': lf, 'field': field, 'v': v})
+
     def rename(self, obj, name):
         self.steps.append({'op': 'set', 'obj': obj, 'part': 'name', 'v': name})
 
